@@ -149,6 +149,10 @@ def runH (grow : Nat → Nat → Nat) (o : List Cell → Nat × Bool) (width : N
   | none => none
   | some (h, ls) => some (ls.map (fun p => read h p.1), arrOf h 0)
 
+/-- The pairwise segmentation `richtext.firstLineSegment` as the heap model's segmentation function. -/
+def richSeg (lb : Nat → Nat → Bool) : List Cell → Nat × Bool :=
+  fun l => ((richOracle lb () l).1, (richOracle lb () l).2.1)
+
 /-! ### richtext.HardwrapScanner on the heap -/
 
 /-- The fields of `HardwrapScanner`. -/
